@@ -113,18 +113,17 @@ func runC04_3(c *Ctx) {
 	for _, a := range p.Fn(Root, "Router", "SetUnknownPush").AnonFuncs {
 		pushClosures = append(pushClosures, a)
 	}
-	for _, cl := range callClosures {
-		key := "call handler closure " + shortFn(cl)
-		edges := CondCallEdges(cl, okM)
-		if len(edges) != 1 {
-			c.Viol(key, p.Pos(cl.Pos()), fmt.Sprintf("expected one OK() test of the handler's status, found %d", len(edges)))
-			continue
+	// shape of the function that turns the handler's outs into context state (the closure itself, or a helper
+	// every path of the closure calls)
+	shape := func(fn *ssa.Function) (nEdges int, storeOK, setOK, bodyOK, badBody bool) {
+		edges := CondCallEdges(fn, okM)
+		nEdges = len(edges)
+		if nEdges != 1 {
+			return
 		}
 		e := edges[0]
 		stat := e.Recv
-		storeOK, setOK, bodyOK := false, false, false
-		badBody := false
-		Instrs(cl, func(i ssa.Instruction) {
+		Instrs(fn, func(i ssa.Instruction) {
 			switch x := i.(type) {
 			case *ssa.Store:
 				if isFieldAddr(x.Addr, hcN, statIdx) && x.Val == stat && BlockDominatesInstr(e.False, i) {
@@ -143,8 +142,38 @@ func runC04_3(c *Ctx) {
 				}
 			}
 		})
+		return
+	}
+	for _, cl := range callClosures {
+		key := "call handler closure " + shortFn(cl)
+		target := cl
+		n, storeOK, setOK, bodyOK, badBody := shape(cl)
+		if n == 0 {
+			// extracted helper: a static callee in the root package that every path of the closure calls
+			for _, call := range AllCalls(cl) {
+				sc := call.Common().StaticCallee()
+				if _, isCall := call.(*ssa.Call); !isCall || sc == nil || sc.Pkg != cl.Pkg || len(sc.Blocks) == 0 {
+					continue
+				}
+				if all, _ := p.MustPassFromEntry(cl, func(i ssa.Instruction) bool { return i == ssa.Instruction(call) }, nil); !all {
+					continue
+				}
+				if hn, a1, a2, a3, a4 := shape(sc); hn == 1 {
+					n, storeOK, setOK, bodyOK, badBody = hn, a1, a2, a3, a4
+					target = sc
+				}
+			}
+		}
+		if n != 1 {
+			c.Viol(key, p.Pos(cl.Pos()), fmt.Sprintf("expected one OK() test of the handler's status, found %d", n))
+			continue
+		}
+		how := "non-OK: ctx.stat = stat, output.SetStatus(stat); OK: output.SetBody(result)"
+		if target != cl {
+			how += " (in " + shortFn(target) + ", called on every path)"
+		}
 		c.fact("sibling-shape")
-		c.Check(storeOK && setOK && bodyOK && !badBody, key, p.Pos(cl.Pos()), "non-OK: ctx.stat = stat, output.SetStatus(stat); OK: output.SetBody(result)",
+		c.Check(storeOK && setOK && bodyOK && !badBody, key, p.Pos(cl.Pos()), how,
 			fmt.Sprintf("closure deviates from its siblings (ctx.stat stored on failure: %v, reply status set on failure: %v, body set only on success: %v): the caller sees OK for a failed handler or loses the result", storeOK, setOK, bodyOK && !badBody))
 	}
 	for _, cl := range pushClosures {
